@@ -37,7 +37,8 @@ add(
     "switches, indels, read) is re-validated from scratch: coordinates, placement rule of the type, minimum overlap, "
     "independent edit/Hamming distance under an independent wildcard model, error budget (exact and float). An "
     "exhaustive sweep covers all adapters over {A,C,N} and reads over {A,C,N,a} up to small lengths for all eight types; "
-    "a CLI slice checks --info-file columns against the API match.",
+    "a CLI slice checks --info-file columns against the API match; a history sub-check feeds several reads to one "
+    "adapter object and demands the result of a fresh object (no state leaking between reads).",
     "Held on everything explored. Trusted: the oracle's own wildcard model (written from the documentation), Python.",
     "DESIGN.md section 4, C01",
 )
@@ -48,7 +49,8 @@ add(
     "Reads are constructed to contain occurrences (edited full copies, partial overlaps at either end, infixes, two "
     "copies); a reference model decides whether an admissible occurrence exists under the placement rule, overlap and "
     "tolerance, and a match is then demanded (error-free: all types; within tolerance: indels off or types that cannot "
-    "skip the adapter start). Position bounds for error-free copies (regular 3'/5', rightmost, anchored). The failing "
+    "skip the adapter start; a dedicated generator plants 1..k lone edits into anchored / 3' adapters with indels). "
+    "Position bounds for error-free copies (regular 3'/5', rightmost, anchored). The failing "
     "layer (prefilter vs aligner) is attributed in the message.",
     "Held on everything explored; the with-indels clause excludes start-skipping types as the property states.",
     "DESIGN.md section 4, C02",
@@ -60,7 +62,8 @@ add(
     "match_to() with the shipped k-mer prefilter is compared with the same adapter using the always-true finder on "
     "generated configurations weighted towards anchored/non-internal adapters with indels, anywhere-capable adapters "
     "on short reads and reads shorter than the search windows; KmerFinder.kmers_present is compared with a pure-Python "
-    "windowed substring search under an independent wildcard relation.",
+    "windowed substring search under an independent wildcard relation; the adapter is also checked after a pickle "
+    "round trip (worker processes under the spawn start method).",
     "Held on everything explored after three repository fixes (F4a-c). Memory safety of the C code is judged by the "
     "sanitizer build only in the thorough tier.",
     "DESIGN.md section 4, C07",
@@ -73,7 +76,8 @@ add(
     "poly_a_trim_index (both directions), PolyATrimmer, NEndTrimmer, TooManyN, expected_errors and the two "
     "expected-error predicates are compared with executable versions of the documented definitions on generated and "
     "exhaustively enumerated inputs; a command-line slice applies --poly-a/--trim-n/--max-n/--max-ee to generated "
-    "single and paired files (poly-T head on R2) and compares the complete output.",
+    "single and paired files (poly-T head on R2) and compares the complete output; --poly-a after an adapter with "
+    "--revcomp must remove the suffix of the chosen orientation.",
     "Held on everything explored. Floating point: stated tolerance (1e-13 relative; 2e-15 for single table entries).",
     "DESIGN.md section 4, C14",
 )
@@ -114,7 +118,8 @@ add(
     "combinatorial demultiplexing with --discard-untrimmed): every read id occurs at most once over all files, every "
     "file holds exactly what the reference model sends there, and the JSON figures (input, output, each category, "
     "base pairs from the files themselves, quality-/poly-A-trimmed, with-adapter) equal per-read tallies; input = "
-    "output + categories; the text or minimal report agrees with the JSON.",
+    "output + categories; the text or minimal report agrees with the JSON. A second sub-check repeats this with 2-5 "
+    "worker processes and several chunks, where the figures are merged from the workers.",
     "Held on everything explored after two repository fixes (F2a, F2b). Floating-point criteria on a threshold are "
     "excluded (counted).",
     "DESIGN.md section 4, C04",
@@ -136,7 +141,8 @@ add(
     "values occurring in the data",
     "Filter thresholds are drawn at the lengths, N counts/fractions and expected errors that the fully modified reads "
     "actually have; the model walks the documented filter order and predicts the exact content of the main output "
-    "and of every redirect file, which is compared record by record.",
+    "and of every redirect file, which is compared record by record. A boundary sweep puts one read exactly on and "
+    "beside every threshold (all (length, N count) pairs with a short-decimal fraction; -m/-M at the length).",
     "Held on everything explored. --max-ee/--max-aer within 1e-9 of the threshold are excluded unless exact in binary.",
     "DESIGN.md section 4, C11",
 )
@@ -147,7 +153,7 @@ add(
     "Named adapter sets with {name} and {name1}/{name2} templates: every demultiplexed file must hold exactly the "
     "reads whose last match names it (unknown / untrimmed-output / nowhere as configured), every adapter name "
     "(combination) must have its file even if empty, the records over all files must equal the main output of the "
-    "same command without demultiplexing, and two cores must give identical files.",
+    "same command without demultiplexing, and two cores must give identical files (--times 2: the last match decides).",
     "Held on everything explored after repository fixes F2a and F9.",
     "DESIGN.md section 4, C15",
 )
@@ -184,7 +190,8 @@ add(
     "input by id and must be an aligned slice (sequence and qualities for the same interval; reverse complement / "
     "mate when --revcomp chose so; zero-capping only below the base; mask/lowercase only as allowed). The same command "
     "is run with --action=X, trim, none and without adapters to decide none/mask/lowercase exactly, retain/crop "
-    "against --info-file coordinates; PairedAdapterCutter is checked for every action against interval arithmetic.",
+    "against --info-file coordinates; PairedAdapterCutter is checked for every action against interval arithmetic; "
+    "scenarios include index-enabled sets of anchored adapters.",
     "Held on everything explored after repository fixes F1 and F10. Amount removed by non-adapter stages is C10/C13's subject.",
     "DESIGN.md section 4, C03",
 )
@@ -221,7 +228,8 @@ add(
     "x{n}/U/I/case, name, parameters at adapter/file/global level, linked parts, file:/^file:/file$:) and compares "
     "class and attributes of the adapters built by the real parser with it (precedence adapter > file > global, "
     "absolute error numbers / non-N length, anchored overlap, required flags for -a vs -g and overrides); documented "
-    "invalid combinations must end in exit status 2 with an error message.",
+    "invalid combinations must end in exit status 2 with an error message. Several specifications in one invocation "
+    "(built twice from the same defaults, as for R1 and R2) must each keep their own meaning.",
     "Held on everything explored after repository fix F11 (file$: with per-record parameters).",
     "DESIGN.md section 4, C18",
 )
@@ -235,7 +243,7 @@ add(
     "format; decompressed record streams must equal the baseline run, interleaved must equal the zip of two files, "
     "FASTA input must give the same names and sequences, and the format written must be the one the name (before the "
     "compression suffix) or --fasta requests, else the input format. The full product is enumerated for three fixed "
-    "inputs.",
+    "inputs; runs with several outputs asking for different formats must give each file its own format.",
     "Held on everything explored after repository fixes F3, F9 and F12.",
     "DESIGN.md section 4, C19",
 )
@@ -265,7 +273,9 @@ add(
     "FASTQ + zlib oracle decides whether the faulted input is malformed: then exit status != 0 with an error message "
     "and termination are required; exit 0 is accepted only for well-formed inputs and then every record must be in "
     "the output; output written before an error must be complete records forming a prefix of the fault-free output. "
-    "The multi-core error path also runs under the schedule-owning simulator (deadlock = no runnable task).",
+    "The multi-core error path (single-end and paired faults) also runs under the schedule-owning simulator (deadlock = "
+    "no runnable task); gzip inputs far larger than any read-ahead buffer are truncated so that the reader meets the "
+    "fault after chunks were handed out; paired faults are also run on FASTA input.",
     "Faults are enumerated completely per generated input; inputs, schedules and real-process runs are sampled. "
     "'Never hangs' is decided exactly in the simulator and by a generous time bound for real runs.",
     "DESIGN.md sections 3.5 and 4, C12",
